@@ -126,7 +126,7 @@ def _ask(w, q):
             if k == "sip":
                 crpix = None if q.get("crpix") is None else np.array(q["crpix"], dtype=float)
                 keep = None if crpix is None else crpix.copy()
-                deg = q.get("degree", 3)
+                deg = copy.deepcopy(q.get("degree", 3))      # (a copy: the recorded case must stay what was generated)
                 deg_keep = list(deg) if isinstance(deg, list) else deg
                 h = w.to_fits_sip(degree=deg, max_pix_error=100, max_inv_pix_error=100, npoints=8, crpix=crpix)
                 if crpix is not None and not np.array_equal(crpix, keep):
